@@ -5,6 +5,7 @@ from .. import soups, px, contexts, monitor, docgrammar
 from ..alphabets import SIG, SIG_SMALL, EVERYTYPE_TOKENS, STRUCTURAL
 from ..engine import exc_key, exc_detail, ddmin, hyp_run, Result
 from ..treedump import dump, kinds_present
+from ..contexts import EXTRA_TOKENS
 
 ID = 'C06'
 LEVEL = 'exploration'
@@ -23,7 +24,7 @@ ASSUMPTIONS = [
 ]
 NSHARDS = 16
 ALPHA_EVERY = SIG_SMALL + EVERYTYPE_TOKENS
-ALPHAS = {'SIG': SIG, 'EVERY': ALPHA_EVERY, 'SMALL': SIG_SMALL}
+ALPHAS = {'SIG': SIG, 'EVERY': ALPHA_EVERY, 'SMALL': SIG_SMALL, 'EXTRA': EXTRA_TOKENS}
 STRAY = ['}', '\\end{x}', '\\)', '\\]', '\\end{itemize}']
 OPENERS = ['', '', '\\begin{x}', '\\begin{itemize}', '\\textbf{', '$', '\\[', '{']
 
@@ -43,6 +44,7 @@ def plan(tier, seed):
         L, LE, nrand, ndocs, ncomp = 4, 4, 80000, 40000, 50000
     shards = [('soup', 'default', 'SIG', L, k) for k in range(NSHARDS)]
     shards += [('soup', 'every', 'EVERY', LE, k) for k in range(NSHARDS)]
+    shards += [('soup', 'extra', 'EXTRA', 3 if tier == 'quick' else 4, k) for k in range(NSHARDS)]
     shards += [('rand', nrand // NSHARDS, seed * 1000 + k) for k in range(NSHARDS)]
     shards += [('docs', ndocs // NSHARDS, seed * 1000 + 100 + k) for k in range(NSHARDS)]
     shards += [('comp', ncomp // NSHARDS, seed * 1000 + 200 + k) for k in range(NSHARDS)]
@@ -118,6 +120,11 @@ def check_source(s, ctxname, res, case, count_nontriv=True):
 def check_composite(comp, res):
     ctxname = comp['ctx']
     D, opener, D2, T, G = comp['D'], comp['opener'], comp['D2'], comp['T'], comp['G']
+    W = comp.get('W', '')
+    if not opener:
+        D = D + W           # whitespace before the stray token is content that precedes the error
+    else:
+        D2 = D2 + W
     s = D + opener + D2 + T + G
     case = dict(comp, kind='comp')
     tv = check_source(s, ctxname, res, case)
@@ -153,7 +160,8 @@ def composite_strategy():
         if opener:
             _, ast2 = draw(doc)
             D2 = docgrammar.render(ast2) + '{y}'
-        return {'ctx': 'default', 'D': D, 'opener': opener, 'D2': D2,
+        W = draw(st.sampled_from(['', '', ' ', '\n', '  ']))
+        return {'ctx': 'default', 'D': D, 'opener': opener, 'D2': D2, 'W': W,
                 'T': draw(st.sampled_from(STRAY)), 'G': draw(soup)}
     return comp()
 
